@@ -112,11 +112,20 @@ fn make_entry(n: u64, kind: u64, defect: &str, custom: bool) -> EntryInitNew {
     match defect {
         "not_allowed" => v.push((Attribute::OAuth2RsOriginLanding, Value::new_url_s("https://x.example.com").expect("url"))),
         "multi_single" => {
+            // exactly two values on a single-valued attribute (three for every other entry number)
+            v.retain(|(a, _)| *a != Attribute::Description);
             v.push((Attribute::Description, Value::new_utf8s("one")));
             v.push((Attribute::Description, Value::new_utf8s("two")));
-            v.push((Attribute::Description, Value::new_utf8s("three")));
+            if n % 2 == 0 {
+                v.push((Attribute::Description, Value::new_utf8s("three")));
+            }
         }
-        "illtyped" => v.push((Attribute::Description, Value::new_iname("wrongsyntax"))),
+        "illtyped" => {
+            // (a second, differently typed value on an existing attribute would trip a debug assertion while the
+            // REQUEST is being built, before any server code runs)
+            v.retain(|(a, _)| *a != Attribute::Description);
+            v.push((Attribute::Description, Value::new_iname("wrongsyntax")));
+        }
         "unknown_class" => v.push((Attribute::Class, Value::new_iutf8("kvnosuchclass"))),
         "unknown_attr" => v.push((Attribute::from("kvnosuchattr"), Value::new_utf8s("z"))),
         _ => {}
@@ -128,7 +137,8 @@ fn make_modlist(defect: &str, kind: &str) -> ModifyList<ModifyInvalid> {
     let m = match defect {
         "missing_must" => vec![Modify::Purged(Attribute::Name)],
         "not_allowed" => vec![Modify::Present(Attribute::OAuth2RsOriginLanding, Value::new_url_s("https://x.example.com").expect("url"))],
-        "multi_single" => vec![Modify::Present(Attribute::Description, Value::new_utf8s("m1")), Modify::Present(Attribute::Description, Value::new_utf8s("m2"))],
+        // exactly two values afterwards, whatever was stored before
+        "multi_single" => vec![Modify::Purged(Attribute::Description), Modify::Present(Attribute::Description, Value::new_utf8s("m1")), Modify::Present(Attribute::Description, Value::new_utf8s("m2"))],
         "illtyped" => vec![Modify::Set(Attribute::Name, ValueSetUtf8::new("notaniname".to_string()))],
         "unknown_class" => vec![Modify::Present(Attribute::Class, Value::new_iutf8("kvnosuchclass"))],
         "unknown_attr" => vec![Modify::Present(Attribute::from("kvnosuchattr"), Value::new_utf8s("z"))],
